@@ -39,6 +39,8 @@ def to_dm(x):
         if x.ndim == 0:
             return float(x)
         return cs.DM(x.astype(float).ravel().tolist())
+    if isinstance(x, str):  # np.str_ is both a str and a numpy scalar
+        return x
     if isinstance(x, np.generic):
         return float(x)
     return x
@@ -74,6 +76,8 @@ def flat(x):
 def shape_tag(x):
     if isinstance(x, np.ndarray):
         return "0d" if x.ndim == 0 else ("len1" if x.shape == (1,) else "lenN")
+    if isinstance(x, str):
+        return "other"
     if isinstance(x, (np.generic, float, int)):
         return "0d"
     if _is_dm(x):
